@@ -644,6 +644,7 @@ func checkC07(run *mon.Run, rng *mon.Rand, thorough bool) {
 	base.L2.BK.SetDenomMetaData(base.L2.Ctx, banktypes.Metadata{Base: base.L2Denom("upremeta"), Display: "premeta", Name: "pre-registered", Symbol: "PRE",
 		DenomUnits: []*banktypes.DenomUnit{{Denom: base.L2Denom("upremeta"), Exponent: 0}, {Denom: "premeta", Exponent: 6}}})
 	c07StaleHook(run, base)
+	c07EmptyDepositToModuleAddress(run)
 	cases := c.buildCases(thorough)
 	run.Extra["input_classes"] = len(cases)
 	for _, cs := range cases {
@@ -804,4 +805,34 @@ func rewriteFrom(e *L2Env, bz []byte, from string) []byte {
 		panic(err)
 	}
 	return out
+}
+
+// c07EmptyDepositToModuleAddress: on a chain that has not minted anything yet (the module accounts are created on first
+// use), an empty deposit names a module address as its recipient. Whatever becomes of that deposit, the deposits after it
+// are credited and what they credited can be withdrawn: one deposit never blocks the bridge for the others.
+func c07EmptyDepositToModuleAddress(run *mon.Run) {
+	run.Declare("C07.empty_deposit_to_module_address_blocks_nothing", 4)
+	for _, target := range []string{opchildtypes.ModuleName, authtypes.FeeCollectorName, "distribution", "a-module-nobody-registered"} {
+		for _, amt := range []int64{0, 1} {
+			e := newL2Env(L2EnvOpts{})
+			to := authtypes.NewModuleAddress(target).String()
+			tr := []string{fmt.Sprintf("fresh chain (nothing minted yet); deposit #1 of %d uinit to the address of module %q (%s)", amt, target, to)}
+			r1 := e.L2.DeliverGas(100_000_000, e.DepositMsg(e.Executors[0], e.NextL1Seq(), "l1sender", to, "uinit", math.NewInt(amt), nil))
+			run.Evaluations++
+			tr = append(tr, fmt.Sprintf("-> %s %s", r1.Class, r1.ErrString()))
+			u := e.Users[0]
+			r2 := e.L2.DeliverGas(100_000_000, e.DepositMsg(e.Executors[0], e.NextL1Seq(), "l1sender", u.String(), "uinit", math.NewInt(1000), nil))
+			got := e.L2.BK.GetBalance(e.L2.Ctx, u.Addr, e.L2Denom("uinit")).Amount
+			tr = append(tr, fmt.Sprintf("deposit #2 of 1000 uinit to an ordinary account -> %s %s; the account holds %s", r2.Class, r2.ErrString(), got))
+			if !run.Check("C07.empty_deposit_to_module_address_blocks_nothing", r1.Class == sim.OK && r2.Class == sim.OK && got.Equal(math.NewInt(1000)), "c07.module_address_deposit_blocks_bridge.deposit", tr,
+				"after a deposit of %d to the address of module %q a plain deposit to an ordinary account is no longer credited (class %s, balance %s)", amt, target, r2.Class, got) {
+				continue
+			}
+			r3 := e.L2.Deliver(opchildtypes.NewMsgInitiateTokenWithdrawal(u.String(), "l1recipient", sdk.NewCoin(e.L2Denom("uinit"), math.NewInt(10))))
+			tr = append(tr, fmt.Sprintf("withdrawal of 10 by that account -> %s %s", r3.Class, r3.ErrString()))
+			run.Check("C07.empty_deposit_to_module_address_blocks_nothing", r3.Class == sim.OK, "c07.module_address_deposit_blocks_bridge.withdrawal", tr,
+				"after a deposit of %d to the address of module %q the credited tokens cannot be withdrawn: %s", amt, target, r3.ErrString())
+			run.Distinct(fmt.Sprintf("module-address/%s/%d", target, amt))
+		}
+	}
 }
